@@ -23,7 +23,12 @@ for s in seeds:
         rows.append((s, {p: "patch-failed" for p in props})); continue
     res = {}
     try:
+        # MATRIX_ONLY_OWN=1: only the seed's own property's check (the diagonal of the matrix)
+        only_own = os.environ.get("MATRIX_ONLY_OWN") == "1"
         for pid in props:
+            if only_own and pid != s[:3]:
+                res[pid] = "-"
+                continue
             r = sh(f"bin/check {pid} --tier quick")
             tag = str(r.returncode)
             if "no-failing-input-found" in r.stdout: tag += "n"
